@@ -23,8 +23,8 @@ def register(**kw):
 register(
     ID='C19', LEVEL='fault_enumeration',
     ARMS=[(c19a, 0.5), (c19b, 0.3), (c19c, 0.2)],
-    TIERS={'quick': {'runs': 1500, 'wall_cap': 100, 'minimise_budget': 30},
-           'thorough': {'runs': 40000, 'wall_cap': 800, 'minimise_budget': 90}},
+    TIERS={'quick': {'runs': 3000, 'wall_cap': 100, 'minimise_budget': 30},
+           'thorough': {'runs': 90000, 'wall_cap': 900, 'minimise_budget': 120}},
     RULE='each run = one seeded history (2-30 operations) of collation evaluations, lazy-generator '
          'open/step/close/throw/drop/gc and injected setlocale failures under a per-run installed-locale set; '
          'non-trivial = the history acquired the collation lock at least once; distinct = distinct '
@@ -37,8 +37,8 @@ register(
 register(
     ID='C15', LEVEL='exploration',
     ARMS=[(c15, 1.0)],
-    TIERS={'quick': {'runs': 3000, 'wall_cap': 100, 'minimise_budget': 30},
-           'thorough': {'runs': 60000, 'wall_cap': 800, 'minimise_budget': 90}},
+    TIERS={'quick': {'runs': 12000, 'wall_cap': 100, 'minimise_budget': 30},
+           'thorough': {'runs': 300000, 'wall_cap': 900, 'minimise_budget': 120}},
     RULE='each run = one seeded history (3-40 operations) of map:*/array:* functions, constructors and lookups '
          'over a pool of at most 10 aliasing map/array values (results re-enter the pool as the same objects); '
          'after every operation the result is compared with a persistent reference model and every pool member is '
@@ -52,8 +52,8 @@ register(
 register(
     ID='C16', LEVEL='exploration',
     ARMS=[(c16, 0.8), (c16s, 0.2)],
-    TIERS={'quick': {'runs': 4000, 'wall_cap': 100, 'minimise_budget': 30},
-           'thorough': {'runs': 100000, 'wall_cap': 800, 'minimise_budget': 90}},
+    TIERS={'quick': {'runs': 16000, 'wall_cap': 100, 'minimise_budget': 30, 'known_minimise_budget': 8},
+           'thorough': {'runs': 500000, 'wall_cap': 900, 'minimise_budget': 120}},
     RULE='each run = one seeded history of operations on function items: typed random programs over the mini-language '
          '(inline functions capturing let/for variables, function expressions inside loops, function items in '
          'sequences/arrays/maps, named references, partial application, fold/for-each/filter/for-each-pair/apply/sort, '
@@ -69,8 +69,8 @@ register(
 register(
     ID='C05', LEVEL='exploration',
     ARMS=[(c05h, 0.6), (c05s, 0.4)],
-    TIERS={'quick': {'runs': 1600, 'wall_cap': 100, 'minimise_budget': 30},
-           'thorough': {'runs': 40000, 'wall_cap': 800, 'minimise_budget': 90}},
+    TIERS={'quick': {'runs': 4000, 'wall_cap': 100, 'minimise_budget': 30},
+           'thorough': {'runs': 120000, 'wall_cap': 900, 'minimise_budget': 120}},
     RULE='arm c05h: each run = one seeded history (3-40 operations) of select / iter_select (opened, stepped, '
          'interleaved, closed, abandoned) / token.evaluate over shared Selectors, tokens, 1-3 documents (ElementTree, '
          'lxml, prebuilt node trees) and caller-owned variable values, with failing evaluations, clock jumps and '
@@ -88,7 +88,7 @@ register(
     ID='C03', LEVEL='fault_enumeration',
     ARMS=[(c03, 1.0)],
     TIERS={'quick': {'runs': 2000, 'wall_cap': 100, 'minimise_budget': 30, 'run_timeout': 180},
-           'thorough': {'runs': 40000, 'wall_cap': 800, 'minimise_budget': 90, 'run_timeout': 180}},
+           'thorough': {'runs': 45000, 'wall_cap': 900, 'minimise_budget': 120, 'run_timeout': 180}},
     RULE='each run = one seeded history (2-30 operations) on 1-3 pooled parser instances: parse of valid / mutated / '
          'random-Unicode / deep sources, parse interrupted by an asynchronous crash at the k-th line event, '
          'parse+evaluate (eager or lazy), I/O functions over a virtual filesystem/network with a per-resource fault, '
@@ -108,8 +108,8 @@ register(
     ID='C13', LEVEL='exploration',
     ARMS=[(c13s, 0.7), (c13g, 0.3)],
     WARMUP=c13g.warmup,
-    TIERS={'quick': {'runs': 1500, 'wall_cap': 100, 'minimise_budget': 30},
-           'thorough': {'runs': 30000, 'wall_cap': 800, 'minimise_budget': 90}},
+    TIERS={'quick': {'runs': 1200, 'wall_cap': 100, 'minimise_budget': 30},
+           'thorough': {'runs': 20000, 'wall_cap': 900, 'minimise_budget': 120}},
     RULE='arm c13s: each run = one seeded history (3-60 operations) on a pool of at most 6 UnicodeSubset / '
          'CharacterClass objects (add, discard, update, difference_update, |= -= &= ^=, | - & ^, complement, clear, '
          'copy, len/iter/reversed) with operands that are code points, ranges, strings, other pool members, the object '
@@ -129,8 +129,8 @@ register(
 register(
     ID='C04', LEVEL='exploration',
     ARMS=[(c04, 1.0)], DRIVER=c04.run_check,
-    TIERS={'quick': {'hash_seeds': 32, 'items': 500, 'wall_cap': 100},
-           'thorough': {'hash_seeds': 400, 'items': 3000, 'wall_cap': 900}},
+    TIERS={'quick': {'hash_seeds': 48, 'items': 1500, 'wall_cap': 100},
+           'thorough': {'hash_seeds': 600, 'items': 4000, 'wall_cap': 900}},
     RULE='each run = one fresh interpreter started with its own PYTHONHASHSEED (derived from VERIF_SEED) that builds '
          'the four parsers and processes the same VERIF_SEED-derived corpus of operator trees (rendered with exactly the '
          'parentheses the EBNF requires plus random redundant ones, in a canonical and a varied whitespace/comment '
@@ -147,8 +147,8 @@ register(
 register(
     ID='C20', LEVEL='exploration',
     ARMS=[(c20, 1.0)],
-    TIERS={'quick': {'runs': 600, 'wall_cap': 100, 'minimise_budget': 30},
-           'thorough': {'runs': 12000, 'wall_cap': 800, 'minimise_budget': 90}},
+    TIERS={'quick': {'runs': 1200, 'wall_cap': 100, 'minimise_budget': 30},
+           'thorough': {'runs': 30000, 'wall_cap': 900, 'minimise_budget': 120}},
     RULE='each run = one generated XSD schema (1-8 element declarations over built-in simple types, list, union, '
          'restriction, simple-content extension with typed attribute), a second schema for the same vocabulary, one '
          'instance valid against both (re-validated by xmlschema) and a seeded history (2-20 operations) that evaluates '
